@@ -10,6 +10,7 @@ EXPLANATION = (
     "performs (IdMap::apply_*) reaches a page write, because a checkpoint lets recovery skip the log records that carry it, and the "
     "close-time rewrite re-emits CreateLabel records; (3) rewrite_as_snapshot runs only on the `published runs are empty` arm. "
     "It does not decide equality of dumps."
+    " C04.5: only node creation writes I2E records / assigns their label slot. C04.6 / C04.7 (CODEC): writer and reader of the meta page, the node-table record, the CSR segment meta page, the statistics blob and the index catalog page agree on {byte range -> field} resp. on the sequence of widths and names. C04.8: the id registries (LabelInterner.s2i / i2s, IdMap.i2e / i2l) only grow."
 )
 
 MEM = "nervusdb_storage::memtable::MemTable"
